@@ -348,8 +348,11 @@ type InClient struct {
 }
 
 // OpenIn connects to path (e.g. "/i/abc") and starts reading the body.
-func (s *Srv) OpenIn(path, host string) (*InClient, error) {
-	c, err := s.Dial("")
+func (s *Srv) OpenIn(path, host string) (*InClient, error) { return OpenInAt(s.DialAddr(), path, host) }
+
+// OpenInAt is OpenIn through an explicit address (e.g. a link-local one).
+func OpenInAt(addr, path, host string) (*InClient, error) {
+	c, err := DialAddr(addr, "")
 	if err != nil {
 		return nil, err
 	}
